@@ -7,8 +7,9 @@ echo "--- test suite WITH the change"
 PYTHONPATH="$wt" PATH=/venv/bin:$PATH /venv/bin/python -m pytest -q -p no:cacheprovider --timeout=900 2>&1 | tail -1
 git status --short | grep '^??' | awk '{print $2}' | xargs -r rm -rf
 cd /tmp
-PYTHONPATH="$wt" timeout 900 /venv/bin/python "$out/demo.py" > /tmp/confirm_with.txt 2>&1; echo "--- demo WITH change: rc=$?  $(tail -1 /tmp/confirm_with.txt | cut -c1-150)"
+PYTHONPATH="$wt" timeout 900 /venv/bin/python "$out/demo.py" > /tmp/confirm_with_$$.txt 2>&1; echo "--- demo WITH change: rc=$?  $(tail -1 /tmp/confirm_with_$$.txt | cut -c1-150)"
 cd "$wt" && git diff > /tmp/confirm_$$.patch && git checkout -- .
 cd /tmp
-PYTHONPATH="$wt" timeout 900 /venv/bin/python "$out/demo.py" > /tmp/confirm_orig.txt 2>&1; echo "--- demo on ORIGINAL: rc=$?  $(tail -1 /tmp/confirm_orig.txt | cut -c1-150)"
+PYTHONPATH="$wt" timeout 900 /venv/bin/python "$out/demo.py" > /tmp/confirm_orig_$$.txt 2>&1; echo "--- demo on ORIGINAL: rc=$?  $(tail -1 /tmp/confirm_orig_$$.txt | cut -c1-150)"
 cd "$wt" && git apply /tmp/confirm_$$.patch && rm -f /tmp/confirm_$$.patch && git status --short | head -3
+rm -f /tmp/confirm_with_$$.txt /tmp/confirm_orig_$$.txt
